@@ -238,6 +238,11 @@ impl<'a> Http2Parser<'a> {
     pub fn parse_request(&self, data: &[u8]) -> Result<Option<Http2Request>, Http2ParseError> {
         let start_time = Instant::now();
 
+        // Every call decodes a connection from its first byte: start from an empty HPACK
+        // dynamic table so that nothing learned from another connection (or from an earlier
+        // pass over this one) can leak into the result.
+        *self.hpack_decoder.borrow_mut() = Decoder::new();
+
         if !self.has_http2_preface(data) {
             return Err(Http2ParseError::InvalidPreface);
         }
@@ -324,6 +329,9 @@ impl<'a> Http2Parser<'a> {
     /// Parse HTTP/2 response from binary data
     pub fn parse_response(&self, data: &[u8]) -> Result<Option<Http2Response>, Http2ParseError> {
         let start_time = Instant::now();
+
+        // See parse_request: one connection, one fresh HPACK dynamic table.
+        *self.hpack_decoder.borrow_mut() = Decoder::new();
 
         let frames = self.parse_frames(data)?;
 
